@@ -170,6 +170,8 @@ type eventOcc struct {
 	St       *State
 	Origin   string   // RAW: where the written value comes from (computed with the path facts)
 	ArgKinds []string // HOLE: kinds the argument can have on this path (from its static type and path facts)
+	ArgKey   string   // HOLE: canonical path of the argument ("" when it has none, e.g. a node built on the spot)
+	XKey     string   // canonical path of the function's node parameter
 }
 
 type grammar struct {
@@ -641,6 +643,28 @@ func (c *grammarClient) occ(e *Engine, st *State, ev *emitEvent, bk string) *Sta
 			o.Origin = c.rawOrigin(e, st, ev)
 		}
 		if ev.Kind == "HOLE" && ev.Arg != nil {
+			if k := e.CanonSt(st, ev.Arg); k.OK {
+				o.ArgKey = k.Key
+			}
+			// the value variable of a range over one of the node's lists stands for an element of that list
+			if id, isID := ast.Unparen(ev.Arg).(*ast.Ident); isID {
+				if vo := objOf(e.Info, id); vo != nil {
+					for a := e.P.Parent(ev.Call); a != nil; a = e.P.Parent(a) {
+						if rs, isRange := a.(*ast.RangeStmt); isRange && rs.Value != nil && objOf(e.Info, rs.Value) == vo {
+							if k := e.CanonSt(st, rs.X); k.OK {
+								o.ArgKey = k.Key + "[*]"
+							}
+							break
+						}
+						if _, isFn := a.(*ast.FuncDecl); isFn {
+							break
+						}
+					}
+				}
+			}
+			if c.xParam != nil {
+				o.XKey = e.objKey(c.xParam)
+			}
 			if k := e.CanonSt(st, ev.Arg); c.xParam != nil && (objOf(e.Info, ev.Arg) == c.xParam || k.OK && k.Key == e.objKey(c.xParam)) {
 				o.ArgKinds = o.Kinds // pass-through of the function's own node: keep the sub-kind precision
 			} else {
